@@ -1003,8 +1003,10 @@ func (t *txattrwalk) handle(cs *connState) message {
 				size: uint64(size),
 				buf:  buf,
 			},
-			pathNode: ref.pathNode,
+			pathNode:    ref.pathNode,
+			xattrOrigin: ref,
 		}
+		ref.IncRef() // Held by newRef until it is released.
 		cs.InsertFID(t.newFID, newRef)
 		return nil
 	}); err != nil {
